@@ -702,6 +702,23 @@ func (s *SpecValidator) validateParameters() *Result {
 	// - path param must be required
 	res := pools.poolOfResults.BorrowResult()
 	rexGarbledPathSegment := mustCompileRegexp(`.*[{}\s]+.*`)
+
+	// the parameters declared for a whole path item are subject to the same uniqueness rule as
+	// the parameters of an operation (reported against the path, for want of an operation id)
+	if paths := s.spec.Spec().Paths; paths != nil {
+		templates := make([]string, 0, len(paths.Paths))
+		for template := range paths.Paths {
+			templates = append(templates, template)
+		}
+		sort.Strings(templates)
+		for _, template := range templates {
+			shared := &spec.Operation{}
+			shared.ID = template
+			shared.Parameters = paths.Paths[template].Parameters
+			res.Merge(s.checkUniqueParams(template, "", shared))
+		}
+	}
+
 	for method, pi := range s.expandedAnalyzer().Operations() {
 		methodPaths := make(map[string]map[string]string)
 
